@@ -8,6 +8,10 @@ package synct
 //	close                        pw.close()
 //	sc <k> <state> <tr>          fake SubConn k: addrConn.state := state, addrConn.transport := tr (0 = nil)
 //	pick <tid> <ff> <timeout_s>  go pw.pick(ctx, ff != 0, info)   (timeout 0 = no deadline)
+//	attempt <tid> <ff> <numRetries> <first> <timeout_s>
+//	                             go csAttempt.getTransport() — the REAL call site of pick in stream.go — for an
+//	                             attempt of an RPC with callInfo.failFast = ff (ff=0: wait-for-ready),
+//	                             clientStream.numRetries and .firstAttempt as given; same status line as pick
 //	ret <tid> <result…>          the scripted picker's Pick call of thread tid (parked) returns:
 //	                             nosc | st <code> | wst <code> | err <e> | nilst <e> | sc <k> | scnd <k> | foreign
 //	cancel <tid>                 cancel the pick's context
@@ -146,7 +150,7 @@ func pwAtoi(s string) (int, bool) {
 	return v, true
 }
 
-func (h *pwHarness) classify(t *pwThread, p grpc.VerifPick, err error) string {
+func (h *pwHarness) classify(t *pwThread, p grpc.VerifPick, err error, unwrappedDrop bool) string {
 	if err == nil {
 		tr, _ := p.Transport.(*pwFakeTransport)
 		tid := -1
@@ -162,7 +166,11 @@ func (h *pwHarness) classify(t *pwThread, p grpc.VerifPick, err error) string {
 	if err == grpc.ErrClientConnClosing {
 		return "err:closing"
 	}
-	if inner, ok := grpc.VerifDropError(err); ok {
+	inner, isDrop := grpc.VerifDropError(err)
+	if unwrappedDrop { // csAttempt.getTransport unwrapped the dropError and set a.drop
+		inner, isDrop = err, true
+	}
+	if isDrop {
 		cls := "other"
 		if inner == t.lastErr {
 			cls = "same"
@@ -268,13 +276,21 @@ func (h *pwHarness) Op(f []string) string {
 		}
 		grpc.VerifSetFakeSubConnState(h.sc(k), st, t)
 		return h.status()
-	case "pick":
-		if len(f) != 4 {
+	case "pick", "attempt":
+		isAttempt := f[0] == "attempt"
+		if (!isAttempt && len(f) != 4) || (isAttempt && len(f) != 6) {
 			return "bad-op"
 		}
 		id, ok1 := pwAtoi(f[1])
 		ff, ok2 := pwAtoi(f[2])
-		to, ok3 := pwAtoi(f[3])
+		to, ok3 := pwAtoi(f[len(f)-1])
+		nr, first := 0, 0
+		if isAttempt {
+			var ok4, ok5 bool
+			nr, ok4 = pwAtoi(f[3])
+			first, ok5 = pwAtoi(f[4])
+			ok3 = ok3 && ok4 && ok5
+		}
 		if !ok1 || !ok2 || !ok3 || h.thr[id] != nil {
 			return "bad-op"
 		}
@@ -290,9 +306,16 @@ func (h *pwHarness) Op(f []string) string {
 		h.thr[id] = t
 		h.mu.Unlock()
 		go func() {
-			p, err := h.pw.Pick(ctx, ff != 0, balancer.PickInfo{Ctx: ctx, FullMethodName: "/s/m"})
+			var p grpc.VerifPick
+			var err error
+			drop := false
+			if isAttempt {
+				p, drop, err = h.pw.GetTransport(ctx, ff != 0, nr, first != 0, "/s/m")
+			} else {
+				p, err = h.pw.Pick(ctx, ff != 0, balancer.PickInfo{Ctx: ctx, FullMethodName: "/s/m"})
+			}
 			h.mu.Lock()
-			t.result = h.classify(t, p, err)
+			t.result = h.classify(t, p, err, drop)
 			t.done = true
 			h.mu.Unlock()
 		}()
